@@ -82,7 +82,7 @@ static const Precomp& get_precomp(int layout, int dir, uint64_t m, unsigned mask
   static std::map<std::tuple<int, int, uint64_t, unsigned>, Precomp> cache;
   auto key = std::make_tuple(layout, dir, m, mask);
   auto it = cache.find(key);
-  if (it != cache.end()) return it->second;
+  if (it != cache.end()) { spq::maybe_bystander(); return it->second; }
   Precomp pc;
   spq::MaskGuard g(mask);
   if (layout == REIM) {
